@@ -13,7 +13,8 @@ def main():
     if not names: names = list(cfgs)
     tlcpool = ThreadPoolExecutor(vlib.NCPU)
     upool = ThreadPoolExecutor(8)
-    futs = {n: upool.submit(vlib.run_unit, cfgs[n], ak, akinds[ak], scen, tier, 1, tlcpool) for n in names}
+    build = __import__('os').environ.get('BUILD', 'asan')
+    futs = {n: upool.submit(vlib.run_unit, cfgs[n], ak, akinds[ak], scen, tier, 1, tlcpool, build) for n in names}
     for n, f in futs.items():
         try:
             r = f.result()
